@@ -1,4 +1,5 @@
 import SigModel.Model.Promql
+import SigModel.Model.PromqlBin
 import Oracle.Util
 /- suite "promql" (C09):
    gkey by|without <fields> <hex seriesId>                         → k=<hex group key>
@@ -108,8 +109,69 @@ def agg2 (args : List String) : String :=
     | _, _, _, _, _, _ => "bad-op"
   | _ => "bad-op"
 
+/-! suite "promqlbin":  binop <op> <0|1 bool> L=<hex name> <vec> R=<hex name> <vec>
+      vec ::= - | <series>|<series>…      series ::= <hex id>@<pts>      pts ::= - | <ts>:<int>,…
+      op ∈ add sub mul div mod pow eq ne gt lt ge le and or unless ; |values| < 2^20 ; for pow: left |x| ≤ 8192, right 0..4
+    → ok <hex id>@<ts>=<num>/<den>|nan,… …   (sorted by id, points by timestamp; an entry without points is `<hex id>@`) -/
+
+open SigModel.PromqlBin in
+def parseBinOp : String → Option Op
+  | "add" => some .add | "sub" => some .sub | "mul" => some .mul | "div" => some .div | "mod" => some .mod
+  | "pow" => some .pow | "eq" => some .eq | "ne" => some .ne | "gt" => some .gt | "lt" => some .lt
+  | "ge" => some .ge | "le" => some .le | "and" => some .and | "or" => some .or | "unless" => some .unless
+  | _ => none
+
+def binValLimit : Int := 1048576  -- 2^20
+
+def hasDupNat : List Nat → Bool
+  | [] => false
+  | x :: r => r.contains x || hasDupNat r
+
+def hasDupStr : List Str → Bool
+  | [] => false
+  | x :: r => r.contains x || hasDupStr r
+
+def parseBinPts (s : String) : Option (List (Nat × Int)) :=
+  if s = "-" then some [] else
+  ((s.splitOn ",").mapM (fun (tv : String) => match tv.splitOn ":" with
+    | [t, v] => match t.toNat?, int? v with
+      | some t, some v => if t < 4294967296 ∧ -binValLimit < v ∧ v < binValLimit then some (t, v) else none
+      | _, _ => none
+    | _ => none)).bind (fun (ps : List (Nat × Int)) => if hasDupNat (ps.map (fun (x : Nat × Int) => x.1)) then none else some ps)
+
+def parseBinVec (s : String) : Option SigModel.PromqlBin.Vec :=
+  if s = "-" then some [] else
+  ((s.splitOn "|").mapM (fun (e : String) => match e.splitOn "@" with
+    | [i, p] => match hexBytes? i, parseBinPts p with
+      | some i, some p => some (i, p)
+      | _, _ => none
+    | _ => none)).bind (fun (v : SigModel.PromqlBin.Vec) => if hasDupStr (v.map (fun (x : Str × SigModel.PromqlBin.Pts) => x.1)) then none else some v)
+
+open SigModel.PromqlBin in
+def showVal : Val → String
+  | .num q => showRat q
+  | .nan => "nan"
+  | .unmodelled => "unmodelled"
+
+open SigModel.PromqlBin in
+def binopH (args : List String) : String :=
+  match args with
+  | [op, b, ln, lv, rn, rv] =>
+    match parseBinOp op, (if b = "0" then some false else if b = "1" then some true else none),
+          (kvArg "L" ln).bind hexBytes?, parseBinVec lv, (kvArg "R" rn).bind hexBytes?, parseBinVec rv with
+    | some op, some b, some ln, some lv, some rn, some rv =>
+      if op == .pow && (lv.any (fun e => e.2.any (fun p => p.2.natAbs > 8192)) || rv.any (fun e => e.2.any (fun p => p.2 < 0 || p.2 > 4))) then "bad-op" else
+      let out := binop op b { name := ln, series := lv } { name := rn, series := rv }
+      let toks := out.map (fun (i, ps) =>
+        let ps' := ps.mergeSort (fun a c => decide (a.1 ≤ c.1))
+        bytesHex i ++ "@" ++ String.intercalate "," (ps'.map (fun (t, v) => s!"{t}={showVal v}")))
+      String.intercalate " " ("ok" :: toks.mergeSort (fun a c => decide (a ≤ c)))
+    | _, _, _, _, _, _ => "bad-op"
+  | _ => "bad-op"
+
 def handle (cmd : String) (args : List String) : Option String :=
   match cmd with
+  | "binop" => some (binopH args)
   | "gkey" => some (gkey args)
   | "agg" => some (agg args)
   | "agg2" => some (agg2 args)
